@@ -175,7 +175,7 @@ PROPS = {
         explanation="processRow (PNG filters None/Sub/Up/Average/Paeth and TIFF predictor 2) is checked as an inductive step from an ARBITRARY reconstructed prior row against RFC 2083 section 6 / TIFF 6.0 section 14 references written in the harness, for every predictor, colours, bits per component and columns up to the bound, with all 256 filter-type bytes; the row loop of decodePostProcess is checked separately on R rows",
         outside="columns/colours beyond the bounds; the zlib/LZW decompressors feeding the rows",
         harnesses=[
-            dict(name="VerifPredictorRow", bounds=dict(quick=dict(C=2, COLORS=2), thorough=dict(C=4, COLORS=3)), opts=dict(unwind=300, timeout_ms=60000)),
+            dict(name="VerifPredictorRow", bounds=dict(quick=dict(C=2, COLORS=2), thorough=dict(C=3, COLORS=2)), opts=dict(unwind=300, timeout_ms=60000)),
             dict(name="VerifPredictorDriver", bounds=dict(quick=dict(C=2, COLORS=2, R=2), thorough=dict(C=3, COLORS=3, R=3)), opts=dict(unwind=300)),
             dict(name="VerifPredictorLZW"),
         ],
@@ -292,7 +292,7 @@ PROPS = {
         harnesses=[
             dict(name="VerifSplitSpans", bounds=dict(quick=dict(P=12), thorough=dict(P=31)), opts=dict(unwind=300)),
             dict(name="VerifSplitSpansFiles", bounds=dict(quick=dict(P=12), thorough=dict(P=31)), opts=dict(unwind=300)),
-            dict(name="VerifSplitAlongPages", bounds=dict(quick=dict(P=8, K=3), thorough=dict(P=30, K=4)), opts=dict(unwind=300)),
+            dict(name="VerifSplitAlongPages", bounds=dict(quick=dict(P=8, K=3), thorough=dict(P=16, K=3)), opts=dict(unwind=300)),
             dict(name="VerifMergeAppendPageTree", pkg=PD, bounds=dict(quick=dict(P=2), thorough=dict(P=3)), opts=dict(unwind=300)),
             dict(name="VerifMergeRenumbering", pkg=PD, bounds=dict(quick=dict(K=3), thorough=dict(K=4)), opts=dict(unwind=300, maprotate=True)),
         ],
